@@ -1,10 +1,12 @@
 package debug
 
 import (
-	"fmt"
+	"github.com/gobuffalo/plush/v5/internal/cyclic"
 )
 
-// Inspect the interface using the `%+v` formatter
+// Inspect the interface using the `%+v` formatter. A value that contains
+// itself (a slice stored into one of its own elements) is described by its
+// type: the formatter would print it until the stack is exhausted.
 func Inspect(v interface{}) string {
-	return fmt.Sprintf("%+v", v)
+	return cyclic.Show("%+v", v)
 }
